@@ -64,12 +64,14 @@ def entry_for(item, sampler, out):
         s2 = conc_text(inl)
         why = verdict(st, backend, s2)
         e.check(why is None, 'inline rendering: %s   [%s]' % (why, s2), info)
-        if sampler.want(): out.append({'stmt': subst_tags(st, f), 'backend': backend, 'sql': s})
+        if sampler.want(): out.append({'stmt': subst_tags(st, f, e.ensure_model()), 'backend': backend, 'sql': s})
     return entry
 
 def work(w):
     item, prefix, seed = w
     eng = ENG; reset_stats(eng); eng.solver = z3.Solver()
+    from props.c01 import PREFER
+    eng.prefer = PREFER
     samples = []; sampler = Sampler(seed, first=1, every=60)
     try:
         viol = eng.run_all(entry_for(item, sampler, samples), prefix=prefix)
@@ -77,7 +79,7 @@ def work(w):
         return {'inconclusive': '%s: %s' % (type(ex).__name__, ex), 'item': repr(item)}
     vs = []
     for k, msg, m, info in viol:
-        vs.append({'kind': k, 'msg': msg, 'item': [item[0], item[1]], 'stmt': subst_tags(info['stmt'], info['fam']) if info else None, 'chosen': info and info['fam'].chosen})
+        vs.append({'kind': k, 'msg': msg, 'item': [item[0], item[1]], 'stmt': subst_tags(info['stmt'], info['fam'], m) if info else None, 'chosen': info and info['fam'].chosen})
     return {'stats': eng.stats, 'executed': eng.executed, 'models_used': eng.models_used, 'violations': vs, 'samples': samples, 'item': repr(item)}
 
 def native_verdict(nat, backend, st):
